@@ -76,7 +76,10 @@ func goldenValues() []ValueScenario {
 	addH(HeaderSpec{VBlock: math.MaxUint64, VApp: 1 << 63, Height: math.MaxUint64, Time: math.MaxUint64, ChainID: []byte("évnode-链-\U0001F680"),
 		LastHeaderHash: []byte{}, AppHash: pat(0, 1000)})
 
-	addSH := func(s SignedHeaderSpec) { c := s; out = append(out, ValueScenario{Kind: kSignedHeader, SignedHeader: &c}) }
+	addSH := func(s SignedHeaderSpec) {
+		c := s
+		out = append(out, ValueScenario{Kind: kSignedHeader, SignedHeader: &c})
+	}
 	prop := SignerSpec{Mode: "key", Key: proposerLabel, KeyType: "ed25519", AddrMode: "derived"}
 	addSH(SignedHeaderSpec{})
 	addSH(SignedHeaderSpec{Header: full, Signer: prop, Sig: SigSpec{Mode: "valid"}, BindProposer: true})
